@@ -844,6 +844,39 @@ def rule_retry_shrink(ctx, cfg, F):
                   f.path, f.loc(wrong), config=cfg)
     else:
         R.ok("the fragment loop's retry decision is taken on the size of the refused fragment", f.loc(0), cfg)
+    # the sizes the loop transmits with are computed from the estimate as it is NOW: a size taken from the estimate before the loop (hoisted "for clarity") is the one
+    # the kernel just refused, however often the estimate is halved afterwards
+    ff_, fu_ = first_fragment_fn(F), followup_fn(F)
+    names_ = {strip_generics(x.path) for x in (ff_, fu_) if x is not None}
+    stale = None
+    for b, t in f.calls():
+        if strip_generics(callee_name(t)) not in names_ or b not in loopb:
+            continue
+        # backward slice of the data argument (the fragment handed over): where is the estimate read?
+        seen_, work_ = set(), [a["pl"]["l"] for a in t["args"] if a.get("k") in ("cp", "mv") and "[u8]" in f.local_ty(a["pl"]["l"])]
+        while work_ and len(seen_) < 300:
+            l = work_.pop()
+            if l in seen_:
+                continue
+            seen_.add(l)
+            for (db, si, node) in f.defs().get(l, []):
+                if f.is_cleanup(db):
+                    continue
+                ops = node["args"] if si is None else (node["rv"].get("a", []) + ([{"k": "cp", "pl": node["rv"]["pl"]}] if "pl" in node["rv"] else []))
+                if si is None and not (strip_generics(callee_name(node)).startswith(("platform::", "std::cmp", "std::ops::Index", "core::slice", "std::slice", "<[T]", "std::ops::Deref")) or "index" in callee_name(node) or "min" in callee_name(node)):
+                    continue
+                for a in ops:
+                    if a.get("k") in ("cp", "mv"):
+                        if any(a["pl"]["l"] == E[0] and fpath(a["pl"])[:len(E[1])] == E[1] for E in est):
+                            if db not in loopb:
+                                stale = stale or (b, db)
+                        else:
+                            work_.append(a["pl"]["l"])
+    if stale:
+        R.violate("%s:retry-size-stale" % f.path, "a fragment sent inside the retry loop is sized from the estimate as it was before the loop (read at %s): after a refusal the estimate shrinks "
+                  "but the retry uses the refused size again -- or slices past the end of a message that only entered the loop through the fallback" % f.loc(stale[1]), f.path, f.loc(stale[0]), config=cfg)
+    else:
+        R.ok("fragment sizes inside the loop are computed from the current estimate", f.loc(0), cfg)
     bodies = []     # (function, predicate "this deref-store writes the estimate")
     for b, t in dcalls:
         g = F.fns.get(t.get("resolved") or t.get("callee")) or getattr(F, "all_fns", {}).get(t.get("resolved") or t.get("callee"))
